@@ -28,7 +28,8 @@ ASSUMPTIONS = [
     'S1-S3 stubs (load side); dumping runs the real serializer and emitter',
     'hierarchy: single-inheritance chain A <- B <- C of registered classes, '
     'C additionally inherits an UNREGISTERED mix-in that defines all three '
-    'hooks, a registered sibling S(A), a holder class; the subset of classes '
+    'hooks (and whose __name__ equals that of the registered class S in the '
+    'families where S defines the hook), a registered sibling S(A), a holder class; the subset of classes '
     'defining _yatiml_savorize / _yatiml_sweeten / _yatiml_recognize in '
     'their own body is chosen by the solver (2^4 each, one hook kind varied '
     'per condition, the others absent)',
@@ -52,12 +53,15 @@ def _mk_hook(kind, owner_name):
                       'M': 'a'}[owner_name]:
                 node.require_attribute(k, int)
         if kind == 'savorize' and RAISE[0] == owner_name:
+            if BARE[0]:
+                raise yatiml.SeasoningError     # no message at all
             raise yatiml.SeasoningError('requested')
     hook.__name__ = '_yatiml_' + kind
     return classmethod(hook)
 
 
 RAISE = [None]
+BARE = [False]
 
 
 def make_classes(kind, fa, fb, fc, fs, fm):
@@ -91,7 +95,9 @@ def make_classes(kind, fa, fb, fc, fs, fm):
         # the unregistered mix-in defines ALL hooks
         for k in ('savorize', 'sweeten', 'recognize'):
             md['_yatiml_' + k] = _mk_hook(k, 'M')
-    M = type('M', (), md)
+    # when the sibling S defines the hook, the unregistered mix-in is NAMED
+    # like that registered class (class S(legacy.S) is ordinary Python)
+    M = type('S' if fs else 'M', (), md)
     C = type('C', (B, M), body('C', fc, init_c))
     S = type('S', (A,), body('S', fs, init_s))
 
@@ -175,8 +181,9 @@ def _load_hooks(kind, fa, fb, fc, fs, fm, target, pos, raise_in,
     load = pick(fam['load'], pos)
     del TRACE[:]
     names = ['A', 'B', 'C', 'S']
-    RAISE[0] = pick([None, 'A', 'B', 'C', 'S'], raise_in) \
+    RAISE[0] = pick([None, 'A', 'B', 'C', 'S', 'A', 'B', 'C', 'S'], raise_in) \
         if kind == 'savorize' else None
+    BARE[0] = raise_in >= 5
     tree = _place(_doc_for(target, tagged), pos)
     try:
         v = load_tree(load, tree)
@@ -222,7 +229,7 @@ def _load_hooks(kind, fa, fb, fc, fs, fm, target, pos, raise_in,
 def savorize(fa: bool, fb: bool, fc: bool, fs: bool, fm: bool, target: int,
              pos: int, raise_in: int, tagged: bool) -> bool:
     """
-    pre: 0 <= target < 4 and 0 <= pos < 5 and 0 <= raise_in < 5
+    pre: 0 <= target < 4 and 0 <= pos < 5 and 0 <= raise_in < 9
     post: __return__
     """
     s = slice_no(-1)
@@ -282,9 +289,10 @@ def savorize_reach(fa: bool, fb: bool, fc: bool, fs: bool, fm: bool,
     pre: 0 <= target < 4 and 0 <= pos < 5 and 0 <= raise_in < 5
     post: __return__
     """
+    if target != 2 or pos != 3 or raise_in != 0:
+        return True
     ok = _load_hooks('savorize', fa, fb, fc, fs, fm, target, pos, raise_in)
-    return not (ok and fa and fb and fc and target == 2 and pos == 3
-                and raise_in == 0)
+    return not (ok and fa and fb and fc)
 
 
 CONDITIONS = [
@@ -294,7 +302,8 @@ CONDITIONS = [
               '_yatiml_savorize (incl. the unregistered mix-in) x document '
               'denoting A/B/C/S, untagged or tagged with its class, x the '
               'hook of A/B/C/S (or none) raising '
-              'SeasoningError; trace == base-first own-body hooks of the '
+              'SeasoningError with or without a message; the mix-in is named '
+              'like the registered class S whenever S defines the hook; trace == base-first own-body hooks of the '
               'registered chain, all before the constructor'},
     {'fn': 'savorize_reach', 'quick': 60, 'thorough': 60,
      'expect': 'REFUTED', 'bound': 'reachability twin'},
